@@ -1169,6 +1169,38 @@ def gen_filter():
 GENERATORS["FilterGen.v"] = gen_filter
 
 
+def gen_wrapper_src():
+    """scalar_function.ScalarFunction: the normalised source of the six methods and of the closures of __init__ that the hand-written
+    wrapper model (Model/SF.v) mirrors - pinned in Properties/C15.v."""
+    t = ast.parse(_src("scalar_function.py"))
+    cl = _cls(t, "ScalarFunction")
+    L = ["(* GENERATED from /repo/lbfgsb/scalar_function.py by harness/translate.py - do not edit *)",
+         "From Coq Require Import String List.", "Import ListNotations.", "Local Open Scope string_scope.", ""]
+    meths = {n.name: n for n in cl.body if isinstance(n, ast.FunctionDef)}
+    for nm in ("update_x", "_update_fun", "_update_grad", "fun", "grad", "fun_and_grad"):
+        if nm not in meths:
+            raise TranslateError(f"ScalarFunction.{nm} not found")
+        L.append(f"Definition sf_{nm.strip('_')}_src : list string := [" + ";\n  ".join(coq_string(x) for x in _body_src(meths[nm])) + "].")
+    init = meths.get("__init__")
+    if init is None:
+        raise TranslateError("ScalarFunction.__init__ not found")
+    inner = [n for n in ast.walk(init) if isinstance(n, ast.FunctionDef) and n is not init]
+    names = [n.name for n in inner]
+    if sorted(names) != sorted(["fun_wrapped", "update_fun", "grad_wrapped", "update_grad", "update_grad"]):
+        raise TranslateError("ScalarFunction.__init__: unexpected closures " + repr(names))
+    k = 0
+    for n in inner:
+        nm = n.name
+        if nm == "update_grad":
+            k += 1
+            nm = f"update_grad_{k}"
+        L.append(f"Definition sf_init_{nm}_src : list string := [" + ";\n  ".join(coq_string(x) for x in _body_src(n)) + "].")
+    return "\n".join(L) + "\n"
+
+
+GENERATORS["WrapperSrc.v"] = gen_wrapper_src
+
+
 def generate():
     """Write the generated files. Returns a list of error strings (empty = ok)."""
     os.makedirs(OUT, exist_ok=True)
